@@ -1154,9 +1154,29 @@ class GroupBy:
             count_df = count_df.iloc[sortkey]  # type: ignore
 
         if margins:
-            result_df = self._add_margins(
-                result_df, margins=margins, func_name=effective_func_name
-            )
+            timestamps = {
+                k: dtype
+                for k, dtype in result_df.dtypes.items()
+                if func_is_mean and dtype.kind in "mM"
+            }
+            if timestamps:
+                # the sums behind a mean of timestamps are tick counts: they are added up as
+                # whole numbers, column by column (pandas refuses to add datetimes, and a float
+                # column alongside would turn the ticks into floats)
+                result_df = pd.DataFrame(
+                    {
+                        k: self._add_margins(
+                            result_df[k].astype("int64"), margins, "sum"
+                        ).astype(timestamps[k])
+                        if k in timestamps
+                        else self._add_margins(result_df[k], margins, "sum")
+                        for k in result_df
+                    }
+                )
+            else:
+                result_df = self._add_margins(
+                    result_df, margins=margins, func_name=effective_func_name
+                )
             if func_is_mean:
                 count_df = self._add_margins(count_df, margins=margins, func_name="sum")
 
